@@ -234,6 +234,41 @@ def directed(rng, tier, idents):
                 exps.append({"name": "t%d_%d" % (ln, k), "kind": "func", "idx": base + k})
                 script += [{"op": "call", "inst": 1, "export": "t%d_%d" % (ln, k), "args": [arg(t, x)]} for x in vals[t]]
         items.append({"id": "twins%d" % j, "module": {"types": types, "funcs": funcs, "exports": exps}, "script": script})
+    # (f) the type section may list one signature several times: call_indirect compares signatures, not their numbers.  Index
+    #     given by a constant directly before the call and by a parameter; defined table with constant-offset segments
+    types = [{"p": ["i32"], "r": ["i32"]}, {"p": ["i32"], "r": ["i32"]}, {"p": [], "r": ["i32"]}, {"p": ["i32"], "r": ["i32"]}, {"p": [], "r": ["i32"]}]
+    funcs = [{"type": 0, "locals": [], "body": [["local.get", 0], ["i32.const", b32(10)], ["i32.add"], ["end"]]},        # slot 0, declared with type 0
+             {"type": 1, "locals": [], "body": [["local.get", 0], ["i32.const", b32(20)], ["i32.add"], ["end"]]},        # slot 1, type 1 (same signature)
+             {"type": 3, "locals": [], "body": [["local.get", 0], ["i32.const", b32(30)], ["i32.add"], ["end"]]},        # slot 2, type 3
+             {"type": 4, "locals": [], "body": [["i32.const", b32(44)], ["end"]]}]                                          # slot 3, type 4 (= type 2)
+    exps, script = [], [inst()]
+    for slot in range(4):
+        for tyi in ((0, 1, 3) if slot < 3 else (2, 4)):
+            args_ = [["local.get", 0]] if slot < 3 else []
+            funcs.append({"type": 0, "locals": [], "body": args_ + [["i32.const", b32(slot)], ["call_indirect", tyi, 0], ["end"]]})
+            exps.append({"name": "k%d_%d" % (slot, tyi), "kind": "func", "idx": len(funcs) - 1})
+            script.append({"op": "call", "inst": 1, "export": "k%d_%d" % (slot, tyi), "args": [arg("i32", 5)]})
+            funcs.append({"type": 0, "locals": [], "body": args_ + [["local.get", 0], ["i32.const", b32(3)], ["i32.and"], ["call_indirect", tyi, 0], ["end"]]})
+            exps.append({"name": "p%d_%d" % (slot, tyi), "kind": "func", "idx": len(funcs) - 1})
+            script.append({"op": "call", "inst": 1, "export": "p%d_%d" % (slot, tyi), "args": [arg("i32", slot if slot < 3 else 7)]})
+    items.append({"id": "duptypes", "module": {"types": types, "funcs": funcs, "exports": exps, "table": {"min": 4, "max": 4},
+                                                "elems": [{"offset": ["i32.const", b32(0)], "funcs": [0, 1]}, {"offset": ["i32.const", b32(2)], "funcs": [2, 3]}]},
+                  "script": script})
+    # (g) a trap ends the call, nothing else: hundreds of calls that trap deep inside a recursion, each recovered by the embedder,
+    #     and the instance answers ordinary calls as before
+    rec = [{"type": 0, "locals": [], "body": [["local.get", 0], ["i32.eqz"], ["if", ""], ["unreachable"], ["end"],
+                                               ["local.get", 0], ["i32.const", b32(1)], ["i32.sub"], ["call", 0], ["i32.const", b32(1)], ["i32.add"], ["end"]]},
+           {"type": 0, "locals": [], "body": [["local.get", 0], ["i32.const", b32(3)], ["i32.mul"], ["end"]]},
+           {"type": 0, "locals": [], "body": [["local.get", 0], ["i32.eqz"], ["if", "i32"], ["i32.const", b32(0)], ["else"], ["local.get", 0], ["i32.const", b32(1)], ["i32.sub"], ["call", 2],
+                                               ["i32.const", b32(1)], ["i32.add"], ["end"], ["end"]]}]
+    sc = [inst()]
+    for r_ in range(320):
+        sc.append({"op": "call", "inst": 1, "export": "deeptrap", "args": [arg("i32", 36)]})
+        if r_ % 40 == 39:
+            sc += [{"op": "call", "inst": 1, "export": "triple", "args": [arg("i32", r_)]}, {"op": "call", "inst": 1, "export": "count", "args": [arg("i32", 30)]}]
+    items.append({"id": "traprecover", "fuel": 1000, "module": {"types": [{"p": ["i32"], "r": ["i32"]}], "funcs": rec,
+                                                               "exports": [{"name": "deeptrap", "kind": "func", "idx": 0}, {"name": "triple", "kind": "func", "idx": 1},
+                                                                           {"name": "count", "kind": "func", "idx": 2}]}, "script": sc})
     # (d) import names: distinct imports must stay distinct; identifiers come from Mangle.tla
     pairs = [("env", "f"), ("env", "f_g"), ("env", "f__g"), ("a_", "b"), ("a", "_b"), ("m0", "Xx"), ("m0", "x$y"), ("m_0", "x.y-z")]
     imports = []
